@@ -5,4 +5,5 @@ MODULES = [
     "strictmode",
     "leaf",
     "composite",
+    "nameditemlist",
 ]
